@@ -41,6 +41,65 @@ def run(P, R, tier, cfg):
     _depth(P, R, fn)
     _tables(P, R)
     _fallback(P, R)
+    _subgoal_proofs_stay(P, R, fn)
+
+
+def _subgoal_proofs_stay(P, R, fn):
+    """A sub-goal (depth > 0) that was just proven must keep its derivation in the facts: the rule above it fires on exactly
+    those facts. So from every point where the search records a solution, and assuming `depth > 0`, no path may reach
+    rollback_undo_frame before commit_undo_frame (alternatives are enumerated - and rolled back - at the root only). A success
+    path that rolls the sub-goal's frame back and still reports it proven makes a provable goal unprovable."""
+    FACTS = "engine::facts::Facts"
+    commits = set(c.bb for c in fn.calls() if c.bb in fn.normal_blocks() and c.resolved == FACTS + "::commit_undo_frame")
+    rollbacks = [c for c in fn.calls() if c.bb in fn.normal_blocks() and c.resolved == FACTS + "::rollback_undo_frame"]
+    succ_pts = [c for (c, s_) in A.calls_with_receiver_field(fn, "solutions", DFS) if c.name == "std::vec::Vec::push" and c.bb in fn.normal_blocks()]
+    if not succ_pts or not rollbacks or not commits:
+        R.undecide("e", "subgoal-proof-kept", "solution recording / commit / rollback sites not found in %s (%d/%d/%d)" % (fn.short_name, len(succ_pts), len(commits), len(rollbacks)), fn)
+        return
+    depth_params = [i for i in range(1, fn.argc + 1) if (fn.locals[i][1] or "") == "depth"]
+
+    def depth_edge(b):
+        """label of the edge a switch takes when depth > 0, or None when the switch does not test depth against 0"""
+        if fn.term(b)[2] != "switch" or not A.bool_edges(fn, b):
+            return None
+        cc = A.canon_cmp(fn.sym_switch(b))
+        if cc is None:
+            return None
+        rel, l, r = cc[0], strip(cc[1]), strip(cc[2])
+        is_d = lambda z: z[0] == "param" and z[1] in depth_params
+        is_0 = lambda z: z[0] == "const" and z[2] == 0
+        pos = None            # truth value of the tested condition when depth > 0
+        if rel == "<" and is_0(l) and is_d(r):
+            pos = True
+        elif rel == "<=" and is_d(l) and is_0(r):
+            pos = False
+        elif rel == "==" and ((is_d(l) and is_0(r)) or (is_0(l) and is_d(r))):
+            pos = False
+        elif rel == "!=" and ((is_d(l) and is_0(r)) or (is_0(l) and is_d(r))):
+            pos = True
+        if pos is None:
+            return None
+        return ("sw", "otherwise") if pos else ("sw", 0)
+    for sp in succ_pts:
+        seen, work, hit = {sp.bb}, [sp.bb], None
+        while work and hit is None:
+            b = work.pop()
+            only = depth_edge(b)
+            for (tg, lab) in fn.succ(b):
+                if only is not None and lab != only:
+                    continue
+                if tg in seen or tg in commits or tg not in fn.normal_blocks():
+                    continue
+                if any(rb.bb == tg for rb in rollbacks):
+                    hit = tg
+                    break
+                seen.add(tg)
+                work.append(tg)
+        if hit is None:
+            R.hold("e", "a solution recorded at depth > 0 is committed before any rollback (line %d)" % sp.line, fn=fn, line=sp.line)
+        else:
+            R.violate("e", "subgoal-proof-rolled-back:%s" % fn.short_name,
+                      "%s records a solution at line %d and, for depth > 0, can reach rollback_undo_frame (line %d) without committing: the sub-goal is reported proven while its derivation is erased, so the rule above it cannot fire and a provable goal is reported unprovable" % (fn.short_name, sp.line, fn.term(hit)[0]), fn, sp.line)
 
 
 def _check_true_edges(fn, goal_txt="goal"):
